@@ -63,7 +63,10 @@ fn parse_bounds(s: &str) -> Vec<(usize, usize)> {
 pub fn plan(prop: &str, tier: &str) -> Plan {
     let target = prop_from_name(prop).unwrap_or_else(|| machinery("unknown property"));
     let q = tier == "quick";
-    let mut profile = Profile::default();
+    let mut profile = Profile {
+        round_trip: prop != "C17",
+        ..Default::default()
+    };
     let mut judge = JudgeCfg {
         target,
         ..Default::default()
@@ -91,6 +94,7 @@ pub fn plan(prop: &str, tier: &str) -> Plan {
         "C16" => if q { vec![(2, 3), (3, 5), (4, 5)] } else { vec![(2, 3), (3, 6), (4, 6), (4, 7)] },
         "C17" => {
             judge.rich_digest = true;
+            profile.clear_op = true;
             if q { vec![(3, 4), (4, 5)] } else { vec![(3, 5), (4, 6)] }
         }
         "C05" => if q { vec![(2, 3), (3, 5), (4, 6)] } else { core_t },
@@ -295,6 +299,13 @@ fn cmd_sweep(args: &[String]) -> i32 {
         }
         extra = json!({"with_capacity_runs": caps});
     }
+    if prop == "C17" {
+        let (dg, grew) = deep::id_digest(if tier == "quick" { 70_000 } else { 140_000 });
+        let pool = rayon::ThreadPoolBuilder::new().num_threads(threads()).build().unwrap();
+        let ppr = pool.install(|| if tier == "quick" { pp::run_with(5, 3, 2, 10) } else { pp::run_with(6, 4, 2, 12) });
+        extra = json!({"deep_history_digest": format!("{dg:016x}"), "arena_grew_at_cycles": grew,
+            "pretty_print_digest": format!("{:016x}", ppr.digest), "pretty_print_renderings": ppr.evaluations});
+    }
     let unknown = extra_unknown + report::emit(
         &prop,
         pl.judge.target,
@@ -422,7 +433,7 @@ fn cmd_pp(args: &[String]) -> i32 {
             "coverage": {
                 "evaluations": res.evaluations,
                 "distinct_nontrivial": res.distinct_nontrivial,
-                "rule": format!("every ordered tree shape with <= {max_n} nodes ({} shapes) x every start node x renderings from {:?} (full product for shapes with <= {full_n} nodes, otherwise every assignment with at most {k} non-trivial renderings) x 3 write chunkings x stand-alone/embedded-with-siblings-and-ancestors x 4 format modes, each compared for string equality with a reference renderer; distinct_nontrivial = distinct (mode, expected text) pairs among cases whose start node has at least one child", res.shapes, pp::ALPHABET),
+                "rule": format!("every ordered tree shape with <= {max_n} nodes ({} shapes) x every start node x renderings from {:?} (full product for shapes with <= {full_n} nodes, otherwise every assignment with at most {k} non-trivial renderings) x 4 write chunkings (whole, per line, per char via write_str, per char via write_char) x stand-alone/embedded-with-siblings-and-ancestors x 4 format modes, each compared for string equality with a reference renderer; distinct_nontrivial = distinct (mode, expected text) pairs among cases whose start node has at least one child", res.shapes, pp::ALPHABET),
                 "samples": res.samples,
                 "exhaustive": true,
                 "shapes": res.shapes,
@@ -607,7 +618,7 @@ fn cmd_replay(args: &[String]) -> i32 {
         let assign: Vec<u8> = j["assign"].as_array().unwrap().iter().map(|x| x.as_u64().unwrap() as u8).collect();
         let start = j["start"].as_u64().unwrap() as usize;
         let mode = j["mode"].as_u64().unwrap() as usize;
-        let chunking = match j["chunking"].as_str().unwrap_or("Whole") { "PerLine" => pp::Chunking::PerLine, "PerChar" => pp::Chunking::PerChar, _ => pp::Chunking::Whole };
+        let chunking = match j["chunking"].as_str().unwrap_or("Whole") { "PerLine" => pp::Chunking::PerLine, "PerChar" => pp::Chunking::PerChar, "WriteChar" => pp::Chunking::WriteChar, _ => pp::Chunking::Whole };
         let (arena, ids) = pp::build(&parent, &assign, chunking, j["embedded"].as_bool().unwrap_or(false));
         let expected = pp::reference(&parent, start, &assign, mode);
         let got = ops::guarded(|| pp::render_real(&arena, ids[start], mode));
